@@ -86,3 +86,8 @@ PLANS.update({
     "C15": dict(level="exploration", jobs=simple("janitor", (2, 60), (40, 1500), stripes_q=4), exhaustive=True, assumptions=["fake tickers registered through the substituted time.NewTicker stand for the real ticker wiring (the race engine of C14 runs the real one)", "bounded cleanup is decided as: gone after the pass of the second tick after expiry"], min_evaluations=50),
     "C16": dict(level="fault_enumeration", jobs=simple("stall", (1, 0), (40, 0)), assumptions=["stall points are the shim points (every atomic / lock / wait operation) of the executions produced; one writer stalled at a time", "waiting is made observable by polling locks: a reader that would block spins through counted steps"], min_evaluations=100),
 })
+
+PLANS.update({
+    "C07": dict(level="exploration", jobs=multi(simple("traverse", (3000, 0), (200000, 0)), seq_plan((1500, 8), (60000, 200)), simple("seqmap", (400, 0), (30000, 0))), assumptions=SEQ_ASSUME + CONC_ASSUME, min_evaluations=100),
+    "C13": dict(level="exploration", jobs=simple("term", (2400, 0), (150000, 0)), assumptions=["termination is decided as bounded progress: a per-call budget of 2^24 shim steps (single goroutine) or 2^28 steps without any call returning (stress), with polling locks so that every wait consumes steps; blocked-forever goroutines trip the runtime deadlock detector (no timers in the process)", "valueFn re-entrancy is excluded as the property says"], min_evaluations=100),
+})
